@@ -1,6 +1,6 @@
 (* C08, two-variable programs: printing of model / spec outcomes for the correspondence check. *)
 From Coq Require Import List ZArith Bool Arith.
-From Krrood Require Import Base.Sx Eql.RuleSpec Eql.RuleSpec2 Eql.RuleEval Eql.RuleBuild Eql.RuleEval2.
+From Krrood Require Import Base.Sx Eql.RuleSpec Eql.RuleSpec2 Eql.RuleEval Eql.RuleBuild Eql.RulePure Eql.RuleEval2 Eql.RuleEval2SpecProofs.
 Import ListNotations. Open Scope nat_scope.
 
 Definition selfun (l : list nat) (t : nat) : nat := nth t l 0.
@@ -23,3 +23,8 @@ Definition model2_sx (prog : rule) (sels : list nat) (Cs : list (Z * nat)) (Bs :
       end
   | None => SL [SZ 1]
   end.
+
+(* [in the fragment of C08_rules2; parents in range; next_rule in the level of a later sibling refinement (unsettled reading)] *)
+Definition frag2_sx (prog : rule) (sels : list nat) (Cs : list (Z * nat)) (Bs : list Z) : sx :=
+  SL [SN (if F2b (selfun sels) prog then 1 else 0); SN (if inrangeb Cs Bs then 1 else 0);
+      SN (if later_ref_next prog then 1 else 0)].
